@@ -329,8 +329,15 @@ class BCPClientSocket(BaseBcpClient):
             message = message[0:-1]
 
             if BYTE_MARKER in message:
-                message, bytes_needed = message.split(b'&bytes=')
-                bytes_needed = int(bytes_needed)
+                try:
+                    message, bytes_needed = message.split(b'&bytes=')
+                    bytes_needed = int(bytes_needed)
+                    if bytes_needed < 0:
+                        raise ValueError("negative payload size")
+                except ValueError:
+                    # not "<command>&bytes=<n>": nothing announces a payload, go on with the next line
+                    self.warning_log("Ignoring BCP message with malformed &bytes= marker: %s", message)
+                    continue
 
                 rawbytes = await self._receiver.readexactly(bytes_needed)
 
@@ -346,7 +353,14 @@ class BCPClientSocket(BaseBcpClient):
         if self._debug:
             self.debug_log('Received "%s"', message)
 
-        cmd, kwargs = decode_command_string(message.decode())
+        try:
+            cmd, kwargs = decode_command_string(message.decode())
+        except ValueError as e:
+            # the line (and its payload) has been consumed completely: one message which cannot be decoded
+            # (not UTF-8, broken JSON, ...) must not stop MPF. Go on with the next one.
+            self.warning_log("Ignoring BCP message which cannot be decoded: %s (%s)", message, e)
+            return None
+
         if rawbytes:
             kwargs['rawbytes'] = rawbytes
 
